@@ -80,8 +80,8 @@ def msgWF (m : PMsg) : Bool :=
   (!m.known || (m.inFields && m.hasType && m.hasCtor)) &&
   (!(m.hasType && m.hasCtor) || m.invalid.length == m.layout.length) &&
   m.layout.length == m.fnames.length &&
-  -- message numbers are 16-bit, field counts fit the definition record's one-byte count
-  decide (m.num < 65536) && decide (m.layout.length < 256) &&
+  -- message numbers are 16-bit and not the invalid marker 0xFFFF, field counts fit the definition record's one-byte count
+  decide (m.num < 65535) && decide (m.layout.length < 256) &&
   allDistinct (m.fields.map (·.num)) && allDistinct (m.fields.map (·.sindex)) &&
   m.fields.all (fieldWF m) &&
   -- every struct field is named by exactly one lookup entry (nothing decodes into a field
